@@ -305,6 +305,7 @@ func (c *Channel) UnPause() error {
 }
 
 func (c *Channel) doPause(pause bool) error {
+	verifPoint("pause:before-flip")
 	if pause {
 		atomic.StoreInt32(&c.paused, 1)
 	} else {
